@@ -1,8 +1,10 @@
 """C13 - All backends behave as the same simple object store."""
-from specs import local, s3, b2
+from specs import local, s3, b2, retry
 
 LEVEL = 'proof'
-UNITS = local.small_units('C13') + local.units('C13') + s3.list_units('C13') + s3.method_units('C13')[:3] + b2.units('C13')[:1] + b2.units('C13')[3:]
+UNITS = [b2.upload_url_unit('C13')] + retry.requires_auth_units('C13') + local.small_units('C13') + local.units('C13') + s3.list_units('C13') + s3.method_units('C13')[:3] + b2.units('C13')[:1] + b2.units('C13')[3:]
+from specs import families as _families
+UNITS = _families.with_families('C13', UNITS)
 BOUNDED = [{'name': 'C13.stores', 'script': 'bounded/c13_stores.py', 'timeout': 900, 'bound': 'real S3-compatible and B2 adapters against in-memory services written from the public API descriptions (pages of 3 names), and the local adapter on a scratch directory (files read back from disk): 6 (thorough: 40) seeded histories per service of 14 operations (upload, upload_stream, delete incl. absent names twice, exists, download, download_stream, list) over 9 names (prefixes of each other, spaces, +, non-ASCII, .tmp); after every operation the service content and list_files for 3 prefixes are compared with a dict model, on the same and on a fresh adapter object'},
            {'name': 'C13.local.list_names', 'script': 'bounded/c13_local.py', 'timeout': 600, 'bound': '9 spellings of the repository path x 8 names (incl. .tmp suffix, spaces, non-ASCII) x all prefixes of those names; 10 (thorough: 200) seeded random operation sequences of 25 ops against a dict model'}]
 TRUSTED = [
